@@ -95,8 +95,8 @@ CHECKS = {
             "DESIGN.md 6 C19"),
     "C20": ("model_checking",
             "TLA+ day-step calendar machine with closed forms proved against it by TLC (XrConv) replayed into date/julian_day/weekday/datetime/unix; fraction results as events accepted by the XrBigInt limb-arithmetic acceptor (cross-multiplication, lowest terms, positive denominator); inverse laws for radix text, code points and JSON replayed",
-            "TLC walks every day of a +-150,000-day (quick) / +-1,100,000-day (thorough) window forwards and backwards from 2000-01-01 with the leap-year rules as transitions and checks that the closed-form Julian-day/date/weekday functions agree with the walk in every state; those closed forms predict date(jdn), julian_day(date), weekday for the range ends, every century boundary and random days of +-3,000,000, and the day part of Unix times over +-10^11 s (seconds of the day incl. fractions split by the driver), and the interpreter must agree exactly. Fractions: every construction (int pairs to 2^70, floats by their exact ratio), + - * / and cmp is an event TLC accepts only if it is exact by cross-multiplication in limb arithmetic, in lowest terms with a positive denominator. to_int(text(x, b), b) for all b in 2..36, format b/o/x, to_str, chr/code_point over scalar values incl. surrogate edges (errors), and random JSON documents (serialise -> independent parser -> same document; deserialise(serialise(d)) == d) are replayed inverse laws.",
-            "The JSON and radix/code-point clauses are differential inverse-law checks (Python's json is the independent parser), not TLC-decided; the calendar walk covers +-1.1M days, the remainder of +-3M relies on the 400-year periodicity of the closed forms checked on the walk; Duration arithmetic and Date/Datetime formatting are not covered.",
+            "TLC walks every day of a +-150,000-day (quick) / +-3,000,100-day (thorough: the whole supported range) window forwards and backwards from 2000-01-01 with the leap-year rules as transitions and checks that the closed-form Julian-day/date/weekday functions agree with the walk in every state; those closed forms predict date(jdn), julian_day(date), weekday for the range ends, every century boundary and random days of +-3,000,000, and the day part of Unix times over +-10^11 s (seconds of the day incl. fractions split by the driver), and the interpreter must agree exactly. Fractions: every construction (int pairs to 2^70, floats by their exact ratio), + - * / and cmp is an event TLC accepts only if it is exact by cross-multiplication in limb arithmetic, in lowest terms with a positive denominator. to_int(text(x, b), b) for all b in 2..36, format b/o/x, to_str, chr/code_point over scalar values incl. surrogate edges (errors), and random JSON documents (serialise -> independent parser -> same document; deserialise(serialise(d)) == d) are replayed inverse laws.",
+            "The JSON and radix/code-point clauses are differential inverse-law checks (Python's json is the independent parser), not TLC-decided; the quick calendar walk covers +-150,000 days (the thorough one the whole range); Duration arithmetic and Date/Datetime formatting are not covered.",
             "DESIGN.md 6 C20"),
 }
 
